@@ -677,7 +677,12 @@ impl Walrus {
         let mut planned_bytes: usize = 0;
         let chain_len_at_plan = chain.len();
 
-        while cur_idx < chain.len() && planned_bytes < max_bytes {
+        // A sealed block that could only be planned partially (budget ran out inside it) ends
+        // the plan: reading on from the next block or the tail would skip its remaining entries.
+        let mut sealed_partial = false;
+        // Always plan at least one range so that the "at least one entry" rule also holds for
+        // tiny (even zero) budgets on sealed data.
+        while cur_idx < chain.len() && (planned_bytes < max_bytes || plan.is_empty()) {
             let block = chain[cur_idx].clone();
             if cur_off >= block.used {
                 if info_guard.is_some() {
@@ -691,7 +696,7 @@ impl Walrus {
                 continue;
             }
 
-            let mut want = (max_bytes - planned_bytes) as u64;
+            let mut want = max_bytes.saturating_sub(planned_bytes) as u64;
 
             if planned_bytes == 0 {
                 // This is the start of planning a new batch read
@@ -765,7 +770,7 @@ impl Walrus {
                 }
             }
 
-            let end = block.used.min(cur_off + want);
+            let end = block.used.min(cur_off.saturating_add(want));
             if end > cur_off {
                 plan.push(ReadPlan {
                     blk: block.clone(),
@@ -774,14 +779,18 @@ impl Walrus {
                     is_tail: false,
                     chain_idx: Some(cur_idx),
                 });
-                planned_bytes += (end - cur_off) as usize;
+                planned_bytes = planned_bytes.saturating_add((end - cur_off) as usize);
+            }
+            if end < block.used {
+                sealed_partial = true;
+                break;
             }
             cur_idx += 1;
             cur_off = 0;
         }
 
         // Plan tail if we're at the end of sealed chain
-        if cur_idx >= chain_len_at_plan {
+        if !sealed_partial && cur_idx >= chain_len_at_plan {
             if let Some((active_block, written)) = writer_snapshot.clone() {
                 // Determine start of tail read
                 let mut tail_start = if start_offset.is_some() {
@@ -991,14 +1000,19 @@ impl Walrus {
         let mut entries_parsed = 0u32;
         let mut saw_tail = false;
 
+        // Set while an entry of the current range is still pending; if the range ends (budget,
+        // cap, truncated/invalid entry) before that entry was taken, later ranges must not be
+        // parsed, otherwise the entries left in this range would be skipped.
+        let mut stop_parse = false;
         for (plan_idx, read_plan) in plan.iter().enumerate() {
-            if entries.len() >= MAX_BATCH_ENTRIES {
+            if stop_parse || entries.len() >= MAX_BATCH_ENTRIES {
                 break;
             }
             let buffer = &buffers[plan_idx];
             let mut buf_offset = 0usize;
 
             while buf_offset < buffer.len() {
+                stop_parse = true;
                 if entries.len() >= MAX_BATCH_ENTRIES {
                     break;
                 }
@@ -1101,6 +1115,7 @@ impl Walrus {
                 }
 
                 buf_offset += entry_consumed;
+                stop_parse = false;
             }
         }
 
